@@ -23,6 +23,7 @@ PRE = ("From Coq.Strings Require Import Byte.\nFrom Coq Require Import PrimInt63
        "From EsVerif.Common Require Import Base Bytes.\nFrom EsVerif.C04 Require Import TextModel Spec FmtModel Exec.\n")
 
 KF = "kf_leading_ws_after_numeric"
+KF2 = "kf_float_print_overflow"
 DELIMS = [",", ":", "\t", " ", ";", "|"]
 INT_T = ["i1", "u1", "i2", "u2", "i4", "u4", "i8", "u8"]
 FLT_T = ["f4", "f8"]
@@ -273,9 +274,15 @@ def canon_array(r):
     return {"descr": descr, "rows": rows}
 
 
+_TMP_COUNT = [0]
+
+
 def _tmp(ctx_work, tag):
+    """a path never used before in this process: single cases must not depend on what earlier cases left behind (a failing
+    single case has to fail again when replayed alone); only the steps of a sequence share a path, by design"""
     os.makedirs(ctx_work, exist_ok=True)
-    return os.path.join(ctx_work, "c04_%s_%d.rec" % (tag, os.getpid()))
+    _TMP_COUNT[0] += 1
+    return os.path.join(ctx_work, "c04_%s_%d_%d.rec" % (tag, os.getpid(), _TMP_COUNT[0]))
 
 
 class _Base(Entry):
@@ -285,6 +292,8 @@ class _Base(Entry):
         return gen_cases(ctx, round, self.name)
 
     def nontrivial(self, c, out):
+        if "steps" in c:
+            return any(self.nontrivial(st, None) for st in c["steps"])
         kinds = set(knd(f["t"]) for f in c["fields"])
         if len(kinds) < 2 or len(c["rows"]) < 2:
             return False
@@ -301,136 +310,229 @@ class _Base(Entry):
     def classify(self, c, out, v):
         if v & 4:
             return KF
+        if v & 16:
+            return KF2                   # a finite float whose printed text exceeds the format's largest finite value
         # a strided view written wrongly: Records::Write ignores strides (repaired by fixes/C01/0002-…, Recfile.write)
+        if "steps" in c:
+            return None
         return "noncontiguous_view" if c.get("view") else None
 
 
-class SFileRT(_Base):
-    name = "sfile"
+def _err(e):
+    return [core.errclass(e), "%s: %s" % (type(e).__name__, str(e)[:200])]
+
+
+def step_array(c, state):
+    """the array of one step.  In a sequence with c["same_object"] the array object of the previous step is kept and its
+    contents are replaced IN PLACE by this step's rows (same dtype and length required)."""
+    import numpy as np
+    a = build_array(c)
+    prev = state.get("array")
+    if c.get("same_object") and prev is not None and prev.dtype == a.dtype and prev.shape == a.shape and prev.flags.writeable:
+        np.copyto(prev, a)
+        a = prev
+        state["same_object_used"] = state.get("same_object_used", 0) + 1
+    state["array"] = a
+    return a
+
+
+class _Seq:
+    """sequences: a case with "steps" is a list of ordinary cases carried out one after the other in this process, on ONE
+    path (rewritten by every step) and, with "reuse": true, through ONE SFile / Recfile object re-opened for every file.
+    Every step is judged like a single case (model comparison + property checker); the verdicts are OR-ed."""
 
     def impl(self, c):
-        import esutil.sfile as sfile
-        a = build_array(c)
-        fn = _tmp(self.work, "s")
-        out = {}
+        fn = _tmp(self.work, self.tag)
+        state = {"reuse": bool(c.get("reuse"))}
         try:
-            api = c.get("api") or {}
-            kw = {"delim": c["delim"]}
-            if api.get("header"):
-                kw["header"] = {"note": "x y", "n": 3, "flt": 1.5}
-            if api.get("defaults"):
-                kw.update(padnull=False, ignorenull=False, append=False)
-            try:
-                if api.get("writer") == "SFile":
-                    with sfile.SFile(fn, mode="w", delim=c["delim"]) as sf:
-                        sf.write(a, header=kw.get("header"))
-                elif api.get("order") == "fd":
-                    sfile.write(fn, a, **kw)
-                else:
-                    sfile.write(a, fn, **kw)
-            except Exception as e:  # noqa
-                return {"write_err": [core.errclass(e), "%s: %s" % (type(e).__name__, str(e)[:200])]}
-            raw = open(fn, "rb").read()
-            try:
-                with sfile.SFile(fn) as sf:
-                    off = sf._data_start
-                    hd = sf.get_header()
-                out["hdr"] = {"delim": hd["_DELIM"].encode("latin1").hex(),
-                              "dtype": [[d[0].encode().hex(), d[1].encode().hex(),
-                                         ([int(x) for x in d[2]] if isinstance(d[2], (tuple, list)) else [int(d[2])]) if len(d) > 2 else []]
-                                        for d in hd["_DTYPE"]]}
-            except Exception as e:  # noqa
-                off = raw.find(b"END\n\n") + 5
-                out["hdr"] = {"delim": "", "dtype": []}
-                out["hdr_err"] = "%s: %s" % (type(e).__name__, str(e)[:200])
-            out["text"] = raw[off:].hex()
-            try:
-                rd = api.get("reader")
-                if rd == "header":
-                    res, hd2 = sfile.read(fn, header=True)
-                    assert hd2["_DELIM"] == c["delim"]
-                elif rd == "SFile":
-                    with sfile.SFile(fn) as sf:
-                        res = sf.read()
-                elif rd == "slice":
-                    with sfile.SFile(fn) as sf:
-                        res = sf[:]
-                else:
-                    res = sfile.read(fn)
-                out["read"] = ["ok", canon_array(res)]
-            except Exception as e:  # noqa
-                out["read"] = ["err", core.errclass(e), "%s: %s" % (type(e).__name__, str(e)[:200])]
-            return out
+            if "steps" not in c:
+                return self.impl_one(c, fn, state)
+            outs = []
+            for st in c["steps"]:
+                outs.append(self.impl_one(st, fn, state))
+            return {"steps": outs}
         finally:
+            for k in ("sobj", "robj"):
+                try:
+                    if state.get(k) is not None:
+                        state[k].close()
+                except Exception:  # noqa
+                    pass
             if os.path.exists(fn):
                 os.remove(fn)
 
     def term(self, c, out):
-        if "write_err" in out:
+        if "steps" not in c:
+            return self.term_one(c, out)
+        t = "0"
+        for st, o in reversed(list(zip(c["steps"], out["steps"]))):
+            t = "(Z.lor (%s) %s)" % (self.term_one(st, o), t)
+        return t
+
+    def show(self, c):
+        if "steps" not in c:
+            return self.show_one(c)
+        return "[" + "; ".join(self.show_one(st) for st in c["steps"]) + "]"
+
+
+class SFileRT(_Seq, _Base):
+    name = "sfile"
+    tag = "s"
+
+    def impl_one(self, c, fn, state):
+        import esutil.sfile as sfile
+        a = step_array(c, state)
+        out = {}
+        api = c.get("api") or {}
+        kw = {"delim": c["delim"]}
+        if api.get("header"):
+            kw["header"] = {"note": "x y", "n": 3, "flt": 1.5}
+        if api.get("defaults"):
+            kw.update(padnull=False, ignorenull=False, append=False)
+        try:
+            if state["reuse"]:
+                sf = state.get("sobj")
+                if sf is None:
+                    sf = state["sobj"] = sfile.SFile()
+                sf.open(fn, mode="w", delim=c["delim"])
+                sf.write(a, header=kw.get("header"))
+                sf.close()
+            elif api.get("writer") == "SFile":
+                with sfile.SFile(fn, mode="w", delim=c["delim"]) as sf:
+                    sf.write(a, header=kw.get("header"))
+            elif api.get("order") == "fd":
+                sfile.write(fn, a, **kw)
+            else:
+                sfile.write(a, fn, **kw)
+        except Exception as e:  # noqa
+            return {"write_err": _err(e)}
+        raw = open(fn, "rb").read()
+        off = None
+        try:
+            with sfile.SFile(fn) as sf:
+                off = sf._data_start
+                hd = sf.get_header()
+            out["hdr"] = {"delim": hd["_DELIM"].encode("latin1").hex(),
+                          "dtype": [[d[0].encode().hex(), d[1].encode().hex(),
+                                     ([int(x) for x in d[2]] if isinstance(d[2], (tuple, list)) else [int(d[2])]) if len(d) > 2 else []]
+                                    for d in hd["_DTYPE"]]}
+        except Exception as e:  # noqa
+            out["hdr"] = {"delim": "", "dtype": []}
+            out["hdr_err"] = "%s: %s" % (type(e).__name__, str(e)[:200])
+        # the data section is located in the raw bytes independently of what the library says about the header
+        end = raw.find(b"\nEND\n\n")
+        out["text"] = raw[end + 6:].hex() if end >= 0 else raw.hex()
+        if off is not None and end >= 0 and off != end + 6:
+            out["offset_mismatch"] = [off, end + 6]
+        try:
+            rd = api.get("reader")
+            if state["reuse"]:
+                sf = state["sobj"]
+                sf.open(fn)
+                res = sf.read()
+                again = sf.read()                       # a second read through the same open object
+                sf.close()
+                if canon_array(again) != canon_array(res):
+                    raise AssertionError("second read() through the same SFile object differs from the first")
+            elif rd == "header":
+                res, hd2 = sfile.read(fn, header=True)
+                assert hd2["_DELIM"] == c["delim"]
+            elif rd == "SFile":
+                with sfile.SFile(fn) as sf:
+                    res = sf.read()
+            elif rd == "slice":
+                with sfile.SFile(fn) as sf:
+                    res = sf[:]
+            elif rd == "recfile_offset":
+                # the documented way to read the data section of an sfile with Recfile: offset= (non-default), rows counted
+                import esutil.recfile as recfile
+                with recfile.Recfile(fn, mode="r", dtype=a.dtype, delim=c["delim"], offset=end + 6) as r:
+                    res = r.read()
+            else:
+                res = sfile.read(fn)
+            out["read"] = ["ok", canon_array(res)]
+        except Exception as e:  # noqa
+            out["read"] = ["err"] + _err(e)
+        return out
+
+    def term_one(self, c, out):
+        if "write_err" in out or "offset_mismatch" in out:
             return "3"
         return "v_sfile2 %s %s %s %s %s" % (cbyte(c["delim"]), case_table(c),
                                             chex(bytes.fromhex(out["text"])), chdr(out["hdr"]), cout(out["read"]))
 
-    def show(self, c):
+    def show_one(self, c):
         return "m_sfile2 %s %s" % (cbyte(c["delim"]), case_table(c))
 
 
-class RecfileRT(_Base):
+class RecfileRT(_Seq, _Base):
     name = "recfile"
+    tag = "r"
 
-    def impl(self, c):
+    def impl_one(self, c, fn, state):
         import esutil.recfile as recfile
-        a = build_array(c)
-        fn = _tmp(self.work, "r")
+        a = step_array(c, state)
         out = {}
+        api = c.get("api") or {}
+        wkw = {"delim": c["delim"]}
+        if api.get("defaults"):
+            wkw.update(padnull=False, ignorenull=False, bracket_arrays=False)
         try:
-            api = c.get("api") or {}
-            wkw = {"delim": c["delim"]}
-            if api.get("defaults"):
-                wkw.update(padnull=False, ignorenull=False, bracket_arrays=False)
-            try:
-                if api.get("writer") == "func":
-                    recfile.write(fn, a, **wkw)
-                elif api.get("writer") == "Open":
-                    r = recfile.Open(fn, mode="w", **wkw)
+            if state["reuse"]:
+                r = state.get("robj")
+                if r is None:
+                    r = state["robj"] = recfile.Recfile(fn, mode="w", **wkw)
+                else:
+                    r.open(fn, mode="w", **wkw)
+                r.write(a)
+                r.close()
+            elif api.get("writer") == "func":
+                recfile.write(fn, a, **wkw)
+            elif api.get("writer") == "Open":
+                r = recfile.Open(fn, mode="w", **wkw)
+                r.write(a)
+                r.close()
+            else:
+                with recfile.Recfile(fn, mode="w", **wkw) as r:
                     r.write(a)
-                    r.close()
-                else:
-                    with recfile.Recfile(fn, mode="w", **wkw) as r:
-                        r.write(a)
-            except Exception as e:  # noqa
-                return {"write_err": [core.errclass(e), "%s: %s" % (type(e).__name__, str(e)[:200])]}
-            out["text"] = open(fn, "rb").read().hex()
-            rkw = {"delim": c["delim"]}
-            if api.get("nrows"):
-                rkw["nrows"] = len(c["rows"])
-            if api.get("defaults"):
-                rkw["offset"] = 0
-            dt = a.dtype.descr if api.get("dtype") == "descr" else a.dtype
-            try:
-                if api.get("reader") == "func":
-                    res = recfile.read(fn, dt, **rkw)
-                elif api.get("reader") == "slice":
-                    with recfile.Recfile(fn, mode="r", dtype=dt, **rkw) as r:
-                        res = r[:]
-                else:
-                    with recfile.Recfile(fn, mode="r", dtype=dt, **rkw) as r:
-                        res = r.read()
-                out["read"] = ["ok", canon_array(res)]
-            except Exception as e:  # noqa
-                out["read"] = ["err", core.errclass(e), "%s: %s" % (type(e).__name__, str(e)[:200])]
-            return out
-        finally:
-            if os.path.exists(fn):
-                os.remove(fn)
+        except Exception as e:  # noqa
+            return {"write_err": _err(e)}
+        out["text"] = open(fn, "rb").read().hex()
+        rkw = {"delim": c["delim"]}
+        if api.get("nrows"):
+            rkw["nrows"] = len(c["rows"])
+        if api.get("defaults"):
+            rkw["offset"] = 0
+        dt = a.dtype.descr if api.get("dtype") == "descr" else a.dtype
+        try:
+            if state["reuse"]:
+                r = state["robj"]
+                r.open(fn, mode="r", dtype=dt, **rkw)
+                res = r.read()
+                again = r.read()
+                r.close()
+                if canon_array(again) != canon_array(res):
+                    raise AssertionError("second read() through the same Recfile object differs from the first")
+            elif api.get("reader") == "func":
+                res = recfile.read(fn, dt, **rkw)
+            elif api.get("reader") == "slice":
+                with recfile.Recfile(fn, mode="r", dtype=dt, **rkw) as r:
+                    res = r[:]
+            else:
+                with recfile.Recfile(fn, mode="r", dtype=dt, **rkw) as r:
+                    res = r.read()
+            out["read"] = ["ok", canon_array(res)]
+        except Exception as e:  # noqa
+            out["read"] = ["err"] + _err(e)
+        return out
 
-    def term(self, c, out):
+    def term_one(self, c, out):
         if "write_err" in out:
             return "3"
         return "v_recfile2 %s %s %s %s" % (cbyte(c["delim"]), case_table(c),
                                            chex(bytes.fromhex(out["text"])), cout(out["read"]))
 
-    def show(self, c):
+    def show_one(self, c):
         return "m_recfile2 %s %s" % (cbyte(c["delim"]), case_table(c))
 
 
@@ -459,10 +561,13 @@ F8_SPECIAL = ["7ff8000000000000", "fff8000000000000", "7ff0000000000001", "7ff80
               "fff0000000000000", "0000000000000000", "8000000000000000", "0000000000000001", "8000000000000001",
               "000fffffffffffff", "0010000000000000", "0000000000000abc", "3fb999999999999a", "444b1ae4d6e2ef50",
               "3ee4f8b588e368f1", "3ff0000000000000", "bff0000000000000", "4197d78400000000", "433fffffffffffff",
-              "4340000000000000", "3fd5555555555555", "400921fb54442d18", "7e37e43c8800759c", "01a56e1fc2f8f359"]
+              "4340000000000000", "3fd5555555555555", "400921fb54442d18", "7e37e43c8800759c", "01a56e1fc2f8f359",
+              # the longest %.16g texts (23 characters): negative, 16 significant digits, three-digit exponent
+              "ab31482fe620c5d3", "df482344d0ed9329", "ffefffffffffffff", "800fffffffffffff", "54b693d8e89df185"]
 F4_SPECIAL = ["7fc00000", "ffc00000", "7f800001", "7fc00123", "7f800000", "ff800000", "00000000", "80000000", "00000001",
               "80000001", "007fffff", "00800000", "000116c2", "3dcccccd", "3f800000", "bf800000", "7f7fffff", "ff7fffff",
-              "4b7fffff", "4b800000", "3eaaaaab", "40490fdb", "501502f9", "0da24260", "7e967699"]
+              "4b7fffff", "4b800000", "3eaaaaab", "40490fdb", "501502f9", "0da24260", "7e967699",
+              "80866ebc", "ff7ffffd"]                                        # the longest %.7g texts (13 characters)
 
 
 def gen_f8(r):
@@ -589,6 +694,105 @@ def rnd_field(r, i, types=None, shapes=True):
     return {"name": "f%d" % i, "t": t, "o": r.choice("<>"), "shape": shape}
 
 
+def plain_str(r, w):
+    """a string that is safe behind a numeric cell for every delimiter: starts with a letter"""
+    body = bytes(r.choice(b"abXY019 _.-") for _ in range(r.randint(0, w - 1)))
+    return (bytes([r.choice(b"abcXYZ")]) + body)[:w].ljust(w, b"\x00").hex()
+
+
+def plain_rows(r, fields, nrows, int_digits=None):
+    """rows whose text does not depend on the delimiter being safe; int_digits: every integer has exactly that many digits"""
+    rows = []
+    for _ in range(nrows):
+        row = []
+        for f in fields:
+            els = []
+            for _k in range(nel(f["shape"])):
+                t = f["t"]
+                if t[0] == "S":
+                    els.append(plain_str(r, esz(t)))
+                elif t == "f8":
+                    els.append(gen_f8(r) if int_digits is None else struct.pack(">d", float(r.randint(10 ** (int_digits - 1), 10 ** int_digits - 1))).hex())
+                elif t == "f4":
+                    els.append(gen_f4(r))
+                elif int_digits is not None:
+                    lo, hi = int_range(t)
+                    els.append(r.randint(max(lo, 10 ** (int_digits - 1)), min(hi, 10 ** int_digits - 1)))
+                else:
+                    els.append(gen_int(r, t))
+            row.append(els)
+        rows.append(row)
+    return rows
+
+
+def gen_sequences(r, q, entry):
+    """the history dimension: several write/read round trips in ONE process on ONE path, arranged so that state keyed too
+    coarsely (by path, by (path, size), by object identity, by field names, by record size, by first/last row) collides"""
+    cs = []
+
+    def seq(kind, steps, reuse):
+        for st in steps:
+            st.setdefault("family", "sequence")
+        cs.append({"steps": steps, "seq": kind, "reuse": reuse, "family": "sequence:" + kind})
+
+    def step(fields, rows, d, **kw):
+        return dict({"delim": d, "fields": fields, "rows": rows}, **kw)
+
+    reps = 1 if q else 3
+    for rep in range(reps):
+        for reuse in (False, True):
+            # (b1) the same table rewritten on the same path with another delimiter: every file has the same byte size
+            f = [{"name": "x", "t": r.choice(FLT_T), "o": r.choice("<>"), "shape": []}, {"name": "s", "t": "S4", "o": "|", "shape": []},
+                 {"name": "k", "t": r.choice(INT_T), "o": r.choice("<>"), "shape": [2]}]
+            rows = plain_rows(r, f, r.randint(1, 4))
+            ds = r.sample(DELIMS, 4 if q else 6)
+            seq("same-size-other-delim", [step(f, rows, d) for d in ds] + [step(f, rows, ds[0])], reuse)
+            # (b2) same path, same size, same field names, another dtype of equal spelling length and equal text width
+            nm = "id"
+            rows10 = lambda t: plain_rows(r, [{"name": nm, "t": t, "o": "<", "shape": []}], 3, int_digits=10)     # noqa
+            steps = []
+            for t, o in (("i4", "<"), ("u4", "<"), ("i4", ">"), ("u4", ">")):
+                ff = [{"name": nm, "t": t, "o": o, "shape": []}]
+                rr = rows10(t)
+                if t == "u4":
+                    rr[0][0][0] = 3000000000 + r.randint(0, 999999)
+                steps.append(step(ff, rr, ","))
+            seq("same-size-other-dtype", steps, reuse)
+            steps = []
+            for t in r.sample(["i8", "u8", "f8"], 3):
+                ff = [{"name": "v", "t": t, "o": r.choice("<>"), "shape": []}, {"name": "w", "t": "S2", "o": "|", "shape": []}]
+                steps.append(step(ff, plain_rows(r, ff, 2, int_digits=7), ";"))
+            seq("same-size-other-dtype", steps, reuse)
+            # (b3) equal record size / equal names with other types / equal first and last rows
+            fa = [{"name": "a", "t": "i4", "o": "<", "shape": []}, {"name": "b", "t": "i4", "o": "<", "shape": []}]
+            fb = [{"name": "a", "t": "f8", "o": "<", "shape": []}]
+            fc = [{"name": "a", "t": "S8", "o": "|", "shape": []}]
+            fd = [{"name": "a", "t": "f4", "o": ">", "shape": []}, {"name": "b", "t": "u4", "o": ">", "shape": []}]
+            d = r.choice(DELIMS)
+            seq("same-recordsize-other-fields", [step(ff, plain_rows(r, ff, 3), d) for ff in r.sample([fa, fb, fc, fd], 4)], reuse)
+            ff = [{"name": "n", "t": "i2", "o": "<", "shape": []}, {"name": "s", "t": "S3", "o": "|", "shape": []}]
+            base = plain_rows(r, ff, 5)
+            alt = [base[0]] + plain_rows(r, ff, 3) + [base[-1]]
+            seq("same-first-last-rows", [step(ff, base, d), step(ff, alt, d), step(ff, base[:1] + base[-1:], d)], reuse)
+            # (a) the same array OBJECT modified in place between the writes, then a new object with the first contents
+            oo = ">" if reuse else r.choice("<>")          # non-native at least once: conversions could be memoised per object
+            ff = [{"name": "i", "t": r.choice(["i2", "u2", "i4", "u4", "i8", "u8"]), "o": oo, "shape": []},
+                  {"name": "x", "t": "f8", "o": oo, "shape": [2]}, {"name": "s", "t": "S5", "o": "|", "shape": []}]
+            r1, r2 = plain_rows(r, ff, 3), plain_rows(r, ff, 3)
+            seq("same-object-modified-in-place", [step(ff, r1, d), step(ff, r2, d, same_object=True), step(ff, r1, d, same_object=True),
+                                                  step(ff, r1, d)], reuse)
+            # (c) unrelated tables one after the other (through one re-opened SFile / Recfile object when reuse is set)
+            steps = []
+            for k in range(3 if q else 4):
+                flds = [rnd_field(r, i) for i in range(r.randint(1, 4))]
+                st = mk_case(r, flds, r.randint(1, 4), r.choice(DELIMS), "sequence", True)
+                if r.random() < 0.3:
+                    st["view"] = [r.randint(0, 1), 2]
+                steps.append(st)
+            seq("unrelated-tables", steps, reuse)
+    return cs
+
+
 def gen_cases(ctx, round, entry):
     r = ctx.rng
     cs = []
@@ -671,6 +875,7 @@ def gen_cases(ctx, round, entry):
         #    nrows= given, dtype as descr list, [:] instead of read())
         forms = [["reversed"], ["readonly"], ["recarray"], ["foreign"], ["reversed", "readonly"], ["recarray", "readonly"]]
         apis_s = [{"order": "fd"}, {"header": True}, {"defaults": True}, {"writer": "SFile"}, {"reader": "header"}, {"reader": "SFile"},
+                  {"reader": "recfile_offset"}, {"reader": "recfile_offset", "header": True},
                   {"reader": "slice"}, {"order": "fd", "header": True, "defaults": True, "reader": "slice"}]
         apis_r = [{"writer": "func"}, {"writer": "Open"}, {"reader": "func"}, {"reader": "slice"}, {"nrows": True}, {"dtype": "descr"},
                   {"defaults": True}, {"writer": "func", "reader": "func", "nrows": True, "dtype": "descr", "defaults": True}]
@@ -701,12 +906,14 @@ def gen_cases(ctx, round, entry):
             if nrows in (16385, 32769):
                 c["view"] = [1, 2]
             cs.append(c)
+        # -- sequences (history dimension)
+        cs.extend(gen_sequences(r, q, entry))
         # -- many rows
         for nrows in ((37,) if q else (37, 150, 1000)):
             f = [{"name": "i", "t": "i8", "o": ">", "shape": []}, {"name": "s", "t": "S2", "o": "|", "shape": []},
                  {"name": "x", "t": "f4", "o": "<", "shape": [2]}]
             cs.append(mk_case(r, f, nrows, r.choice(DELIMS), "many-rows", True))
-    n = ctx.n(200, 4500) if round == 0 else ctx.n(150, 1500)
+    n = ctx.n(160, 4500) if round == 0 else ctx.n(150, 1500)
     for _ in range(n):
         nf = r.choice([1, 2, 2, 3, 3, 4, 5, 6])
         fields = [rnd_field(r, i) for i in range(nf)]
@@ -770,6 +977,11 @@ def differential(ctx, entries, replay_case=None):
             c.setdefault("entry", ent.name)
         res = run_entry(ctx, PRE, ent, cases, "d_" + ent.name)
         for c, o, v in res:
+            if "steps" in c:
+                ctx.case([ent.name, c], ent.nontrivial(c, o), ent.family(c), sample={"entry": ent.name, "input": c, "impl_output": o})
+                ctx.count("verdict:%s:%d%s" % (ent.name, v & 3, ":known-class" if v & 4 else ""))
+                ctx.count("sequence:%s:%d-steps%s" % (c.get("seq", "?"), len(c["steps"]), ":reused-object" if c.get("reuse") else ""))
+                continue
             big = len(c["rows"]) > 50
             ctx.case([ent.name, c], ent.nontrivial(c, o), ent.family(c),
                      sample={"entry": ent.name, "input": c if not big else dict(c, rows=c["rows"][:3], rows_total=len(c["rows"])),
@@ -778,16 +990,17 @@ def differential(ctx, entries, replay_case=None):
             ctx.count("delim:%r" % c["delim"])
             ctx.count("rows:%d" % len(c["rows"]))
             ctx.count("layout:%s" % ("strided-view" if c.get("view") else "+".join(c.get("form") or ["contiguous"])))
-            for k, v in sorted((c.get("api") or {}).items()):
-                ctx.count("api:%s=%s" % (k, v))
+            for k, av in sorted((c.get("api") or {}).items()):
+                ctx.count("api:%s=%s" % (k, av))
             for f in c["fields"]:
                 ctx.count("type:%s%s" % (f["t"] if f["t"][0] != "S" else "S", "" if not f["shape"] else "[%dd]" % len(f["shape"])))
             if o.get("read", ["ok"])[0] == "err":
                 ctx.count("read_error:" + o["read"][1])
         failing = [(c, o, v) for c, o, v in res if v & 3 >= 2]
         disagree = [(c, o, v) for c, o, v in res if v & 3 == 1]
-        monitor = [(c, o, v) for c, o, v in res if v & 8]
-        ctx.obligation("contract monitor H_num (Spec.fcontract_b on FmtModel.F_model/P_model) on %d %s cases" % (
+        # H_num fails by construction on members of kf_float_print_overflow (bit 16): that is the recorded finding itself
+        monitor = [(c, o, v) for c, o, v in res if v & 8 and not v & 16]
+        ctx.obligation("contract monitor H_num (Spec.fcontract_b on FmtModel.F_model/P_model; outside kf_float_print_overflow) on %d %s cases" % (
             len(res), ent.name), not monitor)
         if monitor:
             c, o, v = min(monitor, key=lambda t: len(json.dumps(t[0], default=str)))
